@@ -7,6 +7,10 @@ COMMON_TB = [KERNEL, TIE,
              "harness (worker.py, enc.py, common.py): serialisation of inputs/results, canonicalisation, oracles",
              "axioms: none declared; Print Assumptions output of every property theorem is in coverage.print_assumptions"]
 
+DATA_IMPORTS = "Base.Cfg Model.Flags Model.Args Model.FlagsSer Model.Data Model.Consts Model.LineTable Model.LineTableSer Model.Blocks Model.CodeData Model.DataSer Gen.Cfg{TAG}"
+VIEW_IMPORTS = DATA_IMPORTS + " Spec.Lnotab Spec.Dis Model.ViewSer Proofs.C02_Statements"
+JSON_IMPORTS = DATA_IMPORTS + " Model.Json Model.JsonSer"
+
 PROPS = {
     "C10": {
         "level_text": "Theorems (unbounded table length) about the Gallina model of the six codec stages: inverse laws on raw tables inside decidable domains, "
@@ -40,9 +44,8 @@ PROPS["C11"] = {
     "replay_hint": "from code_data._flags_data import to_flags_data, from_flags_data; to_flags_data(data['flags'])",
 }
 
-DATA_IMPORTS = "Base.Cfg Model.Flags Model.Args Model.FlagsSer Model.Data Model.Consts Model.LineTable Model.LineTableSer Model.Blocks Model.CodeData Model.DataSer Gen.Cfg{TAG}"
 PROPS["C01"] = {
-    "imports": DATA_IMPORTS,
+    "imports": VIEW_IMPORTS + " Proofs.C11_Statements Proofs.C01_Statements",
     "prelude": "Definition cfg := Cfg{TAG}.cfg.",
     "level_text": "TODO",
     "level_note": "TODO",
@@ -68,7 +71,6 @@ PROPS["C04"] = {
     "replay_hint": "exec the described def under the named interpreter; compare CodeData.from_code(f.__code__).type with inspect.signature(f), f.__doc__",
 }
 
-VIEW_IMPORTS = DATA_IMPORTS + " Spec.Lnotab Spec.Dis Model.ViewSer Proofs.C02_Statements"
 PROPS["C13"] = {
     "imports": VIEW_IMPORTS,
     "prelude": "Definition cfg := Cfg{TAG}.cfg.",
@@ -94,6 +96,53 @@ PROPS["C02"] = {
                     "line table an assembler image covering the code (monitored: every corpus object is evaluated)"],
     "rule": "every code object of the corpus and of generated programs; distinct = distinct (co_code, name, firstlineno, line table)",
     "replay_hint": "compile the named source; compare CodeData.from_code(c).blocks flattened with dis.get_instructions(c) and co_lines()/PyCode_Addr2Line",
+}
+
+PROPS["C07"] = {
+    "imports": JSON_IMPORTS,
+    "prelude": "Definition cfg := Cfg{TAG}.cfg.",
+    "level_text": "TODO", "level_note": "TODO",
+    "trusted_base": COMMON_TB + ["text layer of json/orjson, repr/ast.literal_eval and base64 are outside the model (identity stand-ins, canonicalised by the harness; their round trip is exercised by the oracle)"],
+    "assumptions": ["repr/literal_eval and base64 round-trip", "json.dumps/json.loads preserve the type and value of ints, finite floats, strings, lists, dicts"],
+    "rule": "every constant kind x every position (operand, default, tuple member, frozenset member, dead-code additional arg, docstring, class docstring), lone surrogates in every string position, "
+            "corpus and generated programs, decoded and normalized; distinct = distinct (origin, hash of data)",
+    "replay_hint": "compile the described source; d = CodeData.from_code(c); CodeData.from_json_data(json.loads(json.dumps(d.to_json_data(), allow_nan=False)))",
+    "claimed": False,
+}
+PROPS["C14"] = {
+    "imports": VIEW_IMPORTS, "prelude": "Definition cfg := Cfg{TAG}.cfg.",
+    "level_text": "TODO", "level_note": "TODO", "trusted_base": COMMON_TB, "assumptions": [],
+    "rule": "programs with nested code left unreferenced by dead-code elimination, duplicated finally bodies, equal sibling lambdas; every corpus code object with nested code; generated programs; "
+            "distinct = distinct (co_code, name, number of nested code objects)",
+    "replay_hint": "compile the named source; compare list(CodeData.from_code(c).all_code_data()) with a recursive walk of c.co_consts",
+    "claimed": False,
+}
+PROPS["C09"] = {
+    "imports": VIEW_IMPORTS, "prelude": "Definition cfg := Cfg{TAG}.cfg.",
+    "level_text": "TODO", "level_note": "TODO", "trusted_base": COMMON_TB + ["dis.get_instructions as independent reader of first-use ranks"], "assumptions": [],
+    "rule": "every corpus / generated code object and its canonical re-encoding (normalize().to_code()); every override on an in-place entry is tested by stripping it from all uses and re-encoding; "
+            "distinct = distinct (co_code, tables, canonical flag)",
+    "replay_hint": "compile the named source; inspect _index_override / _additional_args of CodeData.from_code(c)",
+    "claimed": False,
+}
+PROPS["C05"] = {
+    "imports": VIEW_IMPORTS, "prelude": "Definition cfg := Cfg{TAG}.cfg.",
+    "level_text": "TODO", "level_note": "TODO", "trusted_base": COMMON_TB + ["CPython's evaluation of bytecode (exec, sys.settrace) for the behavioural clause: outside every theorem"], "assumptions": [],
+    "rule": "every corpus / generated code object: symbolic equivalence (dis view, header) of c and normalize().to_code(); generated terminating programs executed with stdout, exception and line trace compared; "
+            "distinct = distinct (co_code, name, firstlineno, line table)",
+    "replay_hint": "compile data.source (or the named file); c2 = CodeData.from_code(c).normalize().to_code(); compare dis views / exec both",
+    "claimed": False,
+}
+PROPS["C08"] = {
+    "imports": JSON_IMPORTS, "prelude": "Definition cfg := Cfg{TAG}.cfg.",
+    "level_text": "Theorems over all constants and all CodeData values at any nesting: equality (Constant.__eq__ through constant_key, dataclass __eq__) is an equivalence relation, it coincides with the "
+                  "partition of CPython's _PyCode_ConstantKey once NaNs are canonicalised, 1/1.0/True, 0.0/-0.0, str/bytes are distinguished also inside tuples, and a hash computed from the compared key respects equality; "
+                  "model equality is compared with Python == on generated pairs; frozen-ness is decided by complete enumeration of (class, field) pairs, not by a theorem",
+    "level_note": "hash(): the model shows the construction (hash of the key) is sound; that CPython's hash of key objects respects their == is trusted. 'equal data encode identically' is decided by the oracle on pairs built by different routes",
+    "trusted_base": COMMON_TB + ["Spec/ConstKey.v transcription of _PyCode_ConstantKey, compared with the real function through ctypes by the oracle", "CPython's hash/eq contract for built-in key objects", "dataclasses runtime (frozen=True)"],
+    "assumptions": ["hash() of tuples/frozensets/str/int/float key objects respects =="],
+    "rule": "edge-value matrix of constants (53 x 53) against _PyCode_ConstantKey, NaN-bearing constants, every (class, field) pair for frozen-ness, CodeData pairs built by decode / decode again / JSON load / normalize / rebuild; distinct = distinct pair descriptors",
+    "replay_hint": "from code_data import Constant; Constant(eval(a)) == Constant(eval(b)); hash(...)",
 }
 
 NOT_CLAIMED = {}
